@@ -276,3 +276,67 @@ def tls_transport_params(stream):
     except (IndexError, ParseError):
         return None
     return None
+
+
+def tls_transport_params_raw(stream):
+    """stream: contiguous bytes of a CRYPTO stream from offset 0 -> the raw bytes of the quic_transport_parameters
+    extension (0x39) of the first ClientHello / EncryptedExtensions, or None (same walk as `tls_transport_params`;
+    nothing is interpreted, so absent / repeated / malformed parameters stay visible to the caller)"""
+    i = 0
+    try:
+        while i + 4 <= len(stream):
+            ty = stream[i]
+            ln = int.from_bytes(stream[i + 1:i + 4], "big")
+            body = stream[i + 4:i + 4 + ln]
+            if len(body) < ln:
+                return None
+            i += 4 + ln
+            if ty == 1:      # ClientHello
+                j = 2 + 32
+                j += 1 + body[j]
+                j += 2 + int.from_bytes(body[j:j + 2], "big")
+                j += 1 + body[j]
+            elif ty == 8:    # EncryptedExtensions
+                j = 0
+            else:
+                continue
+            el = int.from_bytes(body[j:j + 2], "big")
+            j += 2
+            end = j + el
+            while j + 4 <= end:
+                et = int.from_bytes(body[j:j + 2], "big")
+                ln2 = int.from_bytes(body[j + 2:j + 4], "big")
+                if et == 0x39:
+                    if j + 4 + ln2 > len(body):
+                        return None
+                    return bytes(body[j + 4:j + 4 + ln2])
+                j += 4 + ln2
+    except IndexError:
+        return None
+    return None
+
+
+def long_header(b):
+    """unprotected fields of the first long-header packet of a datagram (RFC 9000 §17.2): dict with kind, version,
+    dcid, scid (bytes) and, for Initial packets, token (bytes, possibly cut short when only a prefix of the datagram is
+    given: then `token_len` is still exact); None when `b` does not start with a complete long header"""
+    try:
+        if not b or not (b[0] & 0x80) or len(b) < 7:
+            return None
+        version = int.from_bytes(b[1:5], "big")
+        if version == 0:
+            return None
+        kind = ["initial", "0rtt", "handshake", "retry"][(b[0] >> 4) & 3]
+        j = 5
+        dl = b[j]
+        dcid, j = take(b, j + 1, dl)
+        sl = b[j]
+        scid, j = take(b, j + 1, sl)
+        out = {"kind": kind, "version": version, "dcid": bytes(dcid), "scid": bytes(scid)}
+        if kind == "initial":
+            tl, j = varint(b, j)
+            out["token_len"] = tl
+            out["token"] = bytes(b[j:j + tl])
+        return out
+    except (IndexError, ParseError):
+        return None
